@@ -87,6 +87,11 @@ void AbstractParameterAliasable::aliasParameters(const std::string& p1, const st
 
   string id = "__alias_" + p2 + "_to_" + p1;
 
+  // The listener id is the key of the register and the handle by which copies re-wire their listeners:
+  // two different links must not share it (names containing "_to_" can produce the same id).
+  if (aliasListenersRegister_.find(id) != aliasListenersRegister_.end())
+    throw Exception("AbstractParameterAliasable::aliasParameters. The listener id " + id + " of the alias " + p2 + " -> " + p1 + " is already in use by another alias.");
+
   // p2 must be neither p1 nor one of the parameters p1 follows, directly or through a chain of aliases:
   for (string source = p1; source != ""; source = getFrom(getNamespace() + source))
   {
@@ -206,7 +211,8 @@ void AbstractParameterAliasable::unaliasParameters(const std::string& p1, const 
 
   string id = "__alias_" + p2 + "_to_" + p1;
   auto it = aliasListenersRegister_.find(id);
-  if (it == aliasListenersRegister_.end())
+  // (the id alone does not identify the link when names contain "_to_": the listener must be the one of p2 following p1)
+  if (it == aliasListenersRegister_.end() || it->second->getFrom() != p1 || it->second->getName() != getNamespace() + p2)
     throw Exception("AbstractParameterAliasable::unaliasParameters. Parameter " + p2 + " is not aliased to parameter " + p1 + ".");
   // Remove the listener:
   getParameter_(p1).removeParameterListener(id);
